@@ -416,7 +416,8 @@ def ref_entry(fn) -> dict:
     sites = [(n, k, _canon_with(v, {}, set())) for n, k, v in binding_sites(fn) if n in names]
     return {"locals": names, "sites": sites, "digest": digest(fn), "comps": [names_ for _, names_ in comp_sites(fn)],
             "quants": quantifier_sites(fn), "params_read": params_read(fn), "calls": call_shapes(fn), "call_args": call_args(fn), "stmts": stmt_sequence(fn),
-            "params": [x.arg for x in fn.args.posonlyargs + fn.args.args + fn.args.kwonlyargs], "src": _safe_unparse(fn)}
+            "params": [x.arg for x in fn.args.posonlyargs + fn.args.args + fn.args.kwonlyargs], "src": _safe_unparse(fn),
+            "asserts": sorted({_safe_unparse(x.test) for x in ast.walk(fn) if isinstance(x, ast.Assert)})}
 
 
 def call_args(fn) -> list:
@@ -887,6 +888,33 @@ def reintroduce_temps(fn, ref) -> List[str]:
     return done
 
 
+# ----------------------------------------------------------------------------------------------- 6. assertions and logging that were not there
+def drop_new_assertions(fn, ref) -> int:
+    """`assert` statements whose test is not one of the reference function's, and logging / print calls, are taken out of the compared view: they add a check or a
+    message, they do not change what a run that passes them computes.  (An added assertion that is too strict would show as an exception on valid input: that is not
+    decided here.)"""
+    known = set(ref.get("asserts", []))
+    n = 0
+    for block in _blocks(fn):
+        keep = []
+        for st in block:
+            drop = False
+            if isinstance(st, ast.Assert) and _safe_unparse(st.test) not in known:
+                drop = True
+            elif isinstance(st, ast.Expr) and isinstance(st.value, ast.Call):
+                f = _safe_unparse(st.value.func)
+                if (f.startswith("logger.") or f.startswith("logging.")) and f not in ref.get("src", ""):
+                    drop = True
+            if drop:
+                n += 1
+            else:
+                keep.append(st)
+        if not keep:
+            keep = [ast.Pass()]
+        block[:] = keep
+    return n
+
+
 # ----------------------------------------------------------------------------------------------- driver
 _table_cache: Optional[dict] = None
 
@@ -947,6 +975,7 @@ def normalize_module(tree: ast.Module, modname: str, table: Optional[dict] = Non
             stats["inlined"][qn] = inl
         if align_comps(fn, ref):
             stats.setdefault("comps", {})[qn] = True
+        drop_new_assertions(fn, ref)
         back = reintroduce_temps(fn, ref)
         if back:
             stats.setdefault("reintroduced", {})[qn] = back
